@@ -184,7 +184,7 @@ impl util::BitVec
 		result.push_str("CONTENT\n");
 		result.push_str("BEGIN\n");
 
-		let addr_max_width = format!("{:x}", byte_num - 1).len();
+		let addr_max_width = format!("{:x}", byte_num.saturating_sub(1)).len();
 
 		let mut index = 0;
 		while index < self.len()
@@ -322,7 +322,7 @@ impl util::BitVec
 		result.push_str("const unsigned char data[] = {\n");
 
 		let byte_num = self.len() / 8 + if self.len() % 8 != 0 { 1 } else { 0 };
-		let addr_max_width = format!("{:x}", byte_num - 1).len();
+		let addr_max_width = format!("{:x}", byte_num.saturating_sub(1)).len();
 
 		let mut index = 0;
 		result.push_str(&format!("\t/* 0x{:01$x} */ ", 0, addr_max_width));
